@@ -54,6 +54,7 @@ let parse_op toks =
   | "walk" -> SWalk (n 1)
   | "rwalk" -> SRevWalk (n 1)
   | "erase_loop" -> SEraseLoop (n 1, z 2)
+  | "relocate" -> SRelocate (n 1, n 2)
   | _ -> raise Unknown
 
 let string_of_node = function None -> "empty" | Some v -> string_of_int (int_of_z v)
